@@ -440,6 +440,58 @@ func expectedTrace(s *respScript, h c03Handlers) ([]string, string) {
 	return tr, "eof"
 }
 
+// modelParsesScript: the byte stream of the script, parsed packet by packet by Model.ServerStream.decPkt (the parser the
+// byte-level theorem is about), must be the script's packet list
+func modelParsesScript(c *Ctx, sc *simClient, s *respScript, cs map[string]any) {
+	schemaOf := func(cols []srvCol) string {
+		var parts []string
+		for _, sc := range cols {
+			parts = append(parts, fmt.Sprintf("(%s %s %s)", hx([]byte(sc.name)), hx([]byte(sc.ty)), sc.cn.T.ModelTy()))
+		}
+		return "(" + strings.Join(parts, " ") + ")"
+	}
+	var res []string
+	for i, t := range s.schema {
+		col, _ := newColumn(t)
+		res = append(res, fmt.Sprintf("(%s %s %s)", hx([]byte(s.names[i])), hx([]byte(col.Type())), t.ModelTy()))
+	}
+	ev, lg := "()", "()"
+	evKinds := map[bool]bool{}
+	var want []string
+	for _, p := range s.pkts {
+		if p.kind == "e" && len(p.cols) > 0 {
+			evKinds[p.evInt] = true
+			ev = schemaOf(p.cols)
+		}
+		if p.kind == "l" && len(p.cols) > 0 {
+			lg = schemaOf(p.cols)
+		}
+	}
+	if len(evKinds) > 1 {
+		return // the value column of ProfileEvents changes its type within the script: one fixed schema cannot describe it
+	}
+	for _, p := range s.pkts {
+		want = append(want, p.spec)
+		if p.kind == "x" || p.kind == "eos" || p.kind == "u" {
+			break
+		}
+	}
+	ans := c.D.Ask(fmt.Sprintf("c03.parse %d %s (%s) %s %s", sc.enc.rev, hx(s.stream()), strings.Join(res, " "), ev, lg))
+	c.R.Compared()
+	parts := strings.Split(ans, " | ")
+	w := strings.Join(want, ";")
+	if w == "" {
+		w = "-"
+	}
+	if len(parts) != 2 || parts[0] != w {
+		cs2 := map[string]any{"model_parse": trunc(ans, 400), "stream": truncHex(s.stream())}
+		for k, v := range cs {
+			cs2[k] = v
+		}
+		c.R.Violate(Violation{Kind: "correspondence", Key: "model-parse-differs", What: fmt.Sprintf("Model.ServerStream parses the scripted stream as %q, the script is %q", trunc(ans, 300), w), Case: cs2, Obligation: "correspondence c03.parse"})
+	}
+}
+
 func c03Case(c *Ctx, r *Rng, o simOpts) {
 	R := c.R
 	sc, err := connectSim(o)
@@ -503,6 +555,9 @@ func c03Case(c *Ctx, r *Rng, o simOpts) {
 				}
 			}
 		}
+	}
+	if c.D != nil && !sc.enc.compress {
+		modelParsesScript(c, sc, s, cs)
 	}
 	if c.D != nil {
 		ans := c.D.Ask(fmt.Sprintf("c03.recv %s %s", h.String(), s.specStr()))
